@@ -157,6 +157,10 @@ class HierarchyAnalyzerBase:
                 if not isinstance(choice_node, SelectionChoiceNode):
                     break
 
+                # An infeasible graph is a dead end: its pending choice nodes may already have been removed
+                if choice_node not in graph.graph.nodes and not graph.feasible:
+                    return graph
+
                 # Get assigned option
                 i_choice = i_sel_choice_nodes[choice_node]
                 i_opt = choice_opt_idx[i_choice]
